@@ -142,16 +142,20 @@ def _classes():
             return self.items[self.i - 1]
 
     def generator(items, raise_at, exc, token=None):
-        for i, x in enumerate(items):
-            if i == raise_at:
-                raise exc("planned failure at %d" % i)
+        def maybe_hold(i):
             hold = HOLD.get(token)
             if hold is not None and hold[0] == i:
-                # the harness wants this item to be "in production" for a while (housekeeping runs meanwhile)
+                # the harness wants this step (item, planned failure or the end) to be "in production" for a while
+                # (housekeeping runs meanwhile)
                 HOLD.pop(token, None)
                 hold[1].set()
                 hold[2].wait(CEILING)
+        for i, x in enumerate(items):
+            maybe_hold(i)
+            if i == raise_at:
+                raise exc("planned failure at %d" % i)
             yield x
+        maybe_hold(len(items))
         if raise_at == len(items):
             raise exc("planned failure at %d" % raise_at)
 
@@ -527,10 +531,11 @@ class _Run(object):
     def op_hkn(self, si):
         """housekeeping runs WHILE the server is producing the next item of a stream (thread server: the housekeeper is a thread of
         its own).  si >= 4: the clock is first moved beyond the stream's lifetime, so housekeeping finds the very stream expired
-        whose generator is executing.  Whatever housekeeping decides, it must not fail, and the item in production is delivered."""
+        whose generator is executing.  Whatever housekeeping decides, it must not fail, and what the generator was producing - the
+        item, its planned exception or the end of the stream - is what the client gets."""
         s = self.pick(si % 6)
         suitable = (self.servertype == "thread" and s is not None and s.kind == "gen" and s.handle == "open" and s.state == "live"
-                    and s.sid is not None and self.P[s.proxy]["conn"] is not None and self.expected(s)[0] == "item")
+                    and s.sid is not None and self.P[s.proxy]["conn"] is not None)
         if not suitable:
             with self.guard:
                 self.op_next(si % 6)
@@ -554,7 +559,8 @@ class _Run(object):
             live.wait_for(lambda: ev_in.is_set() or not t.is_alive(), CEILING, step=0.0002)
             try:
                 if ev_in.is_set():
-                    self.labels.add("housekeeping-during-next" + (":stream-expired" if self.expired_why(s_) else ""))
+                    self.inflight_entered = True        # the server WAS inside this stream's next(): the outcome must be the stream's own
+                    self.labels.add("housekeeping-during-next" + (":stream-expired" if self.expired_why(s_) else "") + ":" + self.expected(s_)[0])
                     try:
                         self.D._housekeeping()
                     except Exception as x:
@@ -569,7 +575,11 @@ class _Run(object):
                 raise _Stop()
             prox._pyroClaimOwnership()
             return box[0]
-        self.op_next(si % 6, observe=observe, target=s)
+        self.inflight_entered = False
+        try:
+            self.op_next(si % 6, observe=observe, target=s)
+        finally:
+            self.inflight_entered = False
         if not self.V:
             for o in self.streams:
                 why = self.expired_why(o)
@@ -625,10 +635,10 @@ class _Run(object):
             if state0 == "lingering":
                 self.labels.add("reconnect-within-linger")
             return
-        if pending:
+        if pending and not getattr(self, "inflight_entered", False):
             self.forget(s, "background-expiry")
             return
-        self.viol("next:%s:expected-%s:got-%s" % (state0, exp[0], obs_txt),
+        self.viol("next:%s:expected-%s:got-%s" % (state0 if not getattr(self, "inflight_entered", False) else "housekeeping-during-next", exp[0], obs_txt),
                   "stream %d (%s, %s) at cursor %d of %d: expected %s, got %s" % (
                       s.idx, s.token, state0, s.cursor, len(s.items), exp[0] if exp[0] == "stop" else exp[1], obs_txt))
 
